@@ -10,6 +10,7 @@ INVARIANT ProducerOrder
 INVARIANT SyncDeliveredOnReturn
 INVARIANT WorkerOnly
 INVARIANT AsyncOrder
+INVARIANT RealTimeOrder
 INVARIANT LateMessagesSync
 INVARIANT DrainBeforeStop
 INVARIANT NoUseAfterFree
